@@ -5,7 +5,50 @@ Histories of user saves / deletes, clock ticks, logins, refreshes and requests o
 (reference monitor) judges the implementation's answers."""
 import vlib
 
-PATHS = ["/a/b", "/a/c", "/x", "/p/q"]
+PATHS = ["/a/b", "/a/c", "/x", "/p/q", "/a"]
+WATCH = PATHS + ["/"]
+BASES = ["/a", "/a/b", "/p", "/x", "/a/c"]     # subtrees the rights in RIGHTS are about
+
+def canon(p):
+    """utils.CanonicalPath, for the generator's bookkeeping only"""
+    p = p.strip().lower()
+    if not p:
+        return "/"
+    if p[0] != "/":
+        p = "/" + p
+    out = []
+    for seg in p.split("/"):
+        if seg in ("", "."):
+            continue
+        if seg == "..":
+            if out:
+                out.pop()
+            continue
+        out.append(seg)
+    np = "/" + "/".join(out)
+    return np + "/" if p.endswith("/") and np != "/" else np
+
+def spell(rng, target):
+    """another spelling of a path: some stay the same resource, some start inside a subtree somebody has a
+    right to and leave it through dot-dot segments"""
+    x = rng.random()
+    segs = target.strip("/").split("/")
+    if x < 0.45:
+        base = rng.choice(BASES)
+        up = "/".join(rng.choice(["..", "..", "./..", "/.."]) for _ in base.strip("/").split("/"))
+        return base + rng.choice(["/", "//", "/./"]) + up + target
+    if x < 0.55:
+        return "/" + "/".join(segs[:-1] + ["zz", "..", segs[-1]])
+    if x < 0.65:
+        return target.replace("/", rng.choice(["//", "/./"]), 1) if rng.random() < 0.5 else target + "/."
+    if x < 0.75:
+        return target + rng.choice([" ", "/", "/.."])
+    if x < 0.85:
+        return target.upper() if rng.random() < 0.5 else target.capitalize()
+    if x < 0.93:
+        return target + "/" + rng.choice(["c", "b", "q"]) + "/.."
+    return target + "/%2e%2e"        # a segment that is literally named %2e%2e (sent as %252e%252e): no dot-dot
+
 RIGHTS = ["", "*", "/a/*", "/a/b", "/a/+", "/x", "/p/*", "/a/b;/x", "/+/b", "/a/b/+", "/a/b/*", " /a/b ; /p/q", "/A/B"]
 NAMES = ["bob", "ann", "eve", "root"]
 PWS = {"bob": "pw-bob", "ann": "pw-ann", "eve": "pw-eve", "root": "pw-root"}
@@ -36,8 +79,8 @@ class Gen:
     def path(self, prefer_ext=True):
         r = self.rng
         p = r.choice(self.ext) if (prefer_ext and self.ext and r.random() < 0.75) else r.choice(PATHS)
-        if r.random() < 0.08:
-            p = p.upper()
+        if r.random() < 0.3:
+            p = spell(r, p)
         return p
 
     def save(self, name, **kw):
@@ -145,7 +188,7 @@ class Gen:
             self.maybe_mutate(name)
             kind = r.choice([0, 1, 1, 2, 2])
             p = self.path()
-            if kind == 1 and p.lower() in self.published:
+            if kind == 1 and canon(p) in self.published:
                 kind = 0
             self.ev.append([10, kind, p, self.tok(k), r.choice([0, 1, 2, 2, 7, 12])])
 
@@ -158,12 +201,12 @@ class Gen:
             ep = r.choice([0, 1, 2, 2, 3, 4, 5, 6, 7, 8])
             victim = r.choice(NAMES)
             u = self.user_rec(victim)
-            self.ev.append([11, ep, self.tok(k), u, 1 if r.random() < 0.3 else 0, victim if ep != 6 else self.path()])
+            self.ev.append([11, ep, self.tok(k), u, 1 if r.random() < 0.3 else 0, victim if ep != 6 else r.choice(PATHS)])
             if r.random() < 0.5:
                 # does the change (if it was allowed) show in a decision?
                 k2 = self.login(victim)
                 p2 = self.path()
-                self.ev.append([10, 0 if p2.lower() in self.published else r.choice([0, 1]), p2, A(k2), 0])
+                self.ev.append([10, 0 if canon(p2) in self.published else r.choice([0, 1]), p2, A(k2), 0])
 
     def rtsp_seq(self, publish):
         return [2, 4, 6] if publish else [1, 3, 5]
@@ -184,7 +227,7 @@ class Gen:
             who = name if r.random() < 0.88 else r.choice(NAMES)       # another user mid-session
             path = p if r.random() < 0.9 else self.path()              # another path mid-session
             if m in (2, 6):
-                self.published.add(path.lower()); self.published.add(p.lower())
+                self.published.add(canon(path)); self.published.add(canon(p))
             self.ev.append([6, c, m, path, self.cred(who)])
         if publish and r.random() < 0.6:
             # somebody pulls what was (or was not) published
@@ -214,7 +257,7 @@ class Gen:
         for m in seq:
             self.maybe_mutate(name, 0.3)
             if m in (2, 6):
-                self.published.add(p2.lower()); self.published.add(p.lower())
+                self.published.add(canon(p2)); self.published.add(canon(p))
             self.ev.append([8, c, m, p2 if m == 2 else p])
         if publish and r.random() < 0.5:
             self.sc_pull_after(p2)
@@ -274,7 +317,7 @@ class Gen:
             elif x == 6:
                 m = r.choice([1, 2, 3, 4, 5, 6]); p = self.path()
                 if m in (2, 6):
-                    self.published.update(q.lower() for q in PATHS)
+                    self.published.update(WATCH)
                 self.ev.append([6, cn, m, p, self.cred(name)])
             elif x == 7:
                 kind = r.choice([0, 1, 2, 3])
@@ -284,7 +327,7 @@ class Gen:
             elif x == 8:
                 m = r.choice([1, 2, 3, 4, 5, 6])
                 if m in (2, 6):
-                    self.published.update(q.lower() for q in PATHS)
+                    self.published.update(WATCH)
                 self.ev.append([8, cn, m, self.path()])
             elif x == 9:
                 self.ev.append([9, cn, r.choice([1, 2, 3, 4, 5, 6]), self.path()])
@@ -296,7 +339,8 @@ class Gen:
 
     def build(self, thorough):
         r = self.rng
-        self.ext = r.sample(["/a/b", "/x", "/p/q", "/a/c"], r.choice([1, 2, 2, 3]))
+        self.ext = r.sample(["/a/b", "/x", "/p/q", "/a/c", "/a", "/a"], r.choice([1, 2, 2, 3]))
+        self.ext = sorted(set(self.ext))
         users0 = []
         for n in NAMES:
             if r.random() < 0.8:
@@ -316,7 +360,7 @@ class Gen:
                 e.append(self.forged() if r.random() < 0.4 else [])
         # tokens are referred to by issue index: only *successful* logins/refreshes issue, so the
         # generator's indices drift after a failed one; that is intended (it produces never-issued tokens)
-        return [[users0, self.ext, PATHS], self.ev]
+        return [[users0, self.ext, WATCH], self.ev]
 
 REQUEST = {6, 7, 8, 9, 10, 11}
 ADMIN = {0, 1, 2, 4}
@@ -370,6 +414,10 @@ def run(ck):
         ck.extra["histories_distinguishing_the_pre_repair_behaviour"] = sum(1 for x, y in zip(a, b) if x != y)
     except vlib.Broken as br:
         ck.broken.append(br)
+    # known finding: the right is checked on CanonicalPath(url), the registry serves CanonicalPath of that; they differ
+    # when a blank-edged dot segment is left ("/a/. /x/.." -> "/a/. " -> "/a")
+    ck.stream("unsettled-path", UNSETTLED, "C11_run", "C11", "C11_ok_strict",
+              sig=lambda c, e, o: "path-check-differs-from-served:blank-dot-segment")
     # D24: the predicting function replayed on the implementation (tokens must not be MD5 of the id counter)
     probes = [[k] for k in ([0, 1, 2, 3, 5, 8] if not ck.thorough else list(range(0, 24)))]
     ck.stream("token-prediction", probes, "C11_predict_run", "predict", "C11_predict_ok",
@@ -383,7 +431,9 @@ def run(ck):
              "variants: right, none, wrong password, stale nonce, foreign nonce, other method/uri, other user; user or path switched "
              "mid-session; 40% of the HTTP / WebSocket / API requests carry 1-3 client-chosen headers: the internal user_name_in_token "
              "key in five spellings, duplicated, naming an administrator / a user with * rights / any user / nobody; "
-             "plus an unstructured stream of arbitrary events in arbitrary order and one regression history per "
+             "30% of all request paths re-spelled (dot-dot / // / /./ escapes out of a subtree somebody has a right to, detours that "
+             "stay inside, trailing /. /.. blank slash, upper case, %2e%2e); every stream has its own SDP session name and SSRC "
+             "so the answers say whose description / media arrived; plus an unstructured stream of arbitrary events in arbitrary order and one regression history per "
              "repaired defect. non-trivial = a request that follows an administrator's change or tick made after a login/open. "
              "second stream: the D24 predicting function (session id -> MD5 of the following counter values) replayed on the server.",
         trusted=["MD5 treated as collision free (a digest response verifies iff it was computed from the stored password); "
@@ -448,6 +498,19 @@ REGRESSIONS_RAW += [
     [_env, [[3, "bob", PWS["bob"]], [7, 0, "/a/b", A(0), 0, _F("ann")], [8, 0, 2, "/p/q"], [8, 0, 4, "/p/q"], [8, 0, 6, "/p/q"],
             [8, 0, 1, "/a/b"], [3, "ann", PWS["ann"]], [7, 1, "/x", A(1), 0, []], [7, 2, "/x", A(0), 1, _F("ann")], [7, 2, "/x", A(1), 1, _F("bob")]]],
 ]
+_env2 = [[_u("bob", 0, "/a/b/*", "/a/b/*"), _u("eve", 0, "", "/a/+"), _u("ann", 0, "/p/*", "/x")], ["/a", "/a/b", "/x"], WATCH]
+REGRESSIONS_RAW += [
+    # the right is needed on the stream that is served, however its path is spelled: spellings that start inside a
+    # subtree the caller has a right to and leave it, on every entry point
+    [_env2, [[5], [6, 0, 1, "/a/b/../../x", _c("bob")], [6, 0, 1, "/a/b//.././../x", _c("bob")], [6, 0, 1, "/A/B/../c/../../X ", _c("bob")],
+             [6, 0, 1, "/a/b/..", _c("bob")], [6, 0, 1, "/a/b/zz/..", _c("bob")], [6, 0, 3, "/a/b", _c("bob")], [6, 0, 5, "/a/b", _c("bob")],
+             [5], [6, 1, 2, "/a/b/../x", _c("bob")], [6, 1, 4, "/x", _c("bob")], [6, 1, 6, "/x", _c("bob")],
+             [6, 1, 2, "/a/b/q/../r", _c("bob")], [6, 1, 4, "/a/b/r", _c("bob")], [6, 1, 6, "/a/b/r", _c("bob")]]],
+    [_env2, [[3, "bob", PWS["bob"]], [10, 0, "/a/b/..", A(0), 0], [10, 1, "/a/b/..", A(0), 0], [10, 0, "/a/b/../../x", A(0), 0], [10, 0, "/a/b/.", A(0), 0],
+             [10, 0, "/A/B ", A(0), 0], [10, 2, "/a/b", A(0), 1], [10, 2, "/a/b/..", A(0), 1], [7, 3, "/a/b/..", A(0), 0], [7, 3, "/a//b", A(0), 0],
+             [7, 0, "/A/b", A(0), 0], [8, 0, 1, "/x"], [8, 0, 2, "/a/b/../../x"], [8, 0, 2, "/a/b/c/../d"], [7, 1, "/a/b ", A(0), 0], [7, 2, "/A/B", A(0), 2],
+             [9, 2, 1, "/x"], [9, 2, 3, "/x"], [9, 2, 5, "/x"], [3, "eve", PWS["eve"]], [10, 0, "/a", A(1), 0], [10, 0, "/a/b", A(1), 0], [10, 0, "/a/b/..", A(1), 0]]],
+]
 def _pad(c):
     for e in c[1]:
         if e[0] in (7, 10) and len(e) < 6:
@@ -456,3 +519,9 @@ def _pad(c):
             e.append([])
     return c
 REGRESSIONS = [_pad(c) for c in REGRESSIONS_RAW]
+
+_env3 = [[_u("eve", 0, "/a/+", "/a/+")], ["/a"], WATCH]
+UNSETTLED = [
+    [_env3, [[5], [6, 0, 1, "/a", _c("eve")], [6, 0, 1, "/a/. /x/..", _c("eve")], [6, 0, 3, "/a", _c("eve")], [6, 0, 5, "/a", _c("eve")]]],
+    [_env3, [[5], [6, 0, 2, "/a", _c("eve")], [6, 0, 2, "/a/. /x/..", _c("eve")], [6, 0, 4, "/a", _c("eve")], [6, 0, 6, "/a", _c("eve")]]],
+]
